@@ -146,6 +146,22 @@ class Gen:
         self.new(bshape(self.vars[a]['shape'], self.vars[b]['shape']), iv)
         return True
 
+    def s_maxmin(self):
+        """element-wise maximum / minimum of two values of the same shape through the public dispatcher (forward only: the
+        library provides no pullback for them)"""
+        a = self.pick(lambda v: not v.get('buf'))
+        if a is None:
+            return False
+        sh = self.vars[a]['shape']
+        b = self.pick(lambda v: v['shape'] == sh and v is not self.vars[a] and not v.get('buf'))
+        if b is None:
+            return False
+        fn = self.rng.choice(['maximum', 'minimum'])
+        self.steps.append({'op': 'maxmin', 'fn': fn, 'a': a, 'b': b})
+        (l1, h1), (l2, h2) = self.vars[a]['iv'], self.vars[b]['iv']
+        self.new(sh, (max(l1, l2), max(h1, h2)) if fn == 'maximum' else (min(l1, l2), min(h1, h2)))
+        return True
+
     def s_powbin(self):
         """base ** exponent with both operands program values (forward evaluation only: the reverse sweep documents
         NotImplementedError for a polynomial exponent)"""
@@ -455,10 +471,10 @@ class Gen:
         if a is None:
             return False
         n = self.rng.choice([2, 2, 3])
-        kind = self.rng.choice(['inv', 'solve', 'det', 'logdet', 'trace', 'qr', 'cholesky', 'eigh', 'lu', 'svd', 'qr_full', 'eig'])
+        kind = self.rng.choice(['inv', 'solve', 'det', 'logdet', 'trace', 'qr', 'cholesky', 'eigh', 'eighQ', 'lu', 'svd', 'qr_full', 'eig'])
         if self.allow is not None and ('la:' + kind) not in self.allow and 'la' not in self.allow:
             return False
-        sym = kind in ('cholesky', 'eigh', 'logdet', 'eig')
+        sym = kind in ('cholesky', 'eigh', 'eighQ', 'logdet', 'eig')
         perm = list(range(n))
         if not sym and self.rng.random() < 0.6:
             self.rng.shuffle(perm)           # dominant entries off the diagonal: LU needs row exchanges (incl. 3-cycles)
@@ -466,7 +482,7 @@ class Gen:
         m = self.new((n, n), (-2.0, 6.0))
         self.steps.append({'op': 'la', 'kind': kind, 'a': m})
         shape = {'inv': (n, n), 'solve': (n,), 'det': (), 'logdet': (), 'trace': (), 'qr': (n, n), 'cholesky': (n, n),
-                 'eigh': (n,), 'lu': (n, n), 'svd': (n,), 'qr_full': (n, n), 'eig': (n,)}[kind]
+                 'eigh': (n,), 'eighQ': (n, n), 'lu': (n, n), 'svd': (n,), 'qr_full': (n, n), 'eig': (n,)}[kind]
         self.new(shape, (-20.0, 20.0))
         return True
 
@@ -552,6 +568,10 @@ def _la(kind, M, post=False):
     if kind == 'eigh':
         l, Q = algopy.eigh(M)
         return l
+    if kind == 'eighQ':
+        # the eigenvectors enter through sign-invariant expressions: Q diag(l) Q^T (= M) and the element-wise squares
+        l, Q = algopy.eigh(M)
+        return algopy.dot(Q * l, Q.T) + Q * Q * 0.5
     if kind == 'eig':
         l, Q = algopy.eig(M)
         return l
@@ -595,6 +615,8 @@ def run_program(prog, inputs):
             vals.append(algopy.dot(vals[st['a']], c) if st['side'] == 'r' else algopy.dot(c, vals[st['a']]))
         elif op == 'outer':
             vals.append(algopy.outer(vals[st['a']], vals[st['b']]))
+        elif op == 'maxmin':
+            vals.append(getattr(algopy, st['fn'])(vals[st['a']], vals[st['b']]))
         elif op == 'symvec':
             vals.append(algopy.symvec(vals[st['a']]) if st['UPLO'] is None else algopy.symvec(vals[st['a']], UPLO=st['UPLO']))
         elif op == 'vecsym':
@@ -606,6 +628,14 @@ def run_program(prog, inputs):
             hshape[st['axis']] = n
             H = ((1.0 + 0.25 * np.arange(n)) + 0.5j * (np.arange(n) % 2)).reshape(hshape)
             vals.append(algopy.real(algopy.fft.ifft(algopy.fft.fft(v, axis=st['axis']) * H, axis=st['axis'])))
+        elif op == 'fftparts':
+            # real and imaginary part of the (inverse) transform of real data, combined into a real value
+            v = vals[st['a']]
+            z = (algopy.fft.ifft if st['inv'] else algopy.fft.fft)(v, axis=st['axis'])
+            vals.append(algopy.real(z) * 0.75 + algopy.imag(z) * 1.25)
+        elif op == 'outerc':
+            c = np.array(st['c'])
+            vals.append(algopy.outer(vals[st['a']], c) if st['side'] == 'r' else algopy.outer(c, vals[st['a']]))
         elif op == 'zeros':
             vals.append(algopy.zeros(tuple(st['shape']), dtype=vals[st['like']]))
         elif op == 'ones':
